@@ -22,12 +22,20 @@ class Ctx:
         self.fails[fp] += 1
         self.ex.setdefault(fp, []).append((case, obs))
     def case(self, *a, **k): self.evaluations += 1
-ops = args or list(mod.ALL_PAIR_OPS) + ["unary"]
+ops = args or list(mod.ALL_PAIR_OPS) + (["unary"] if prop == "c21" else ["queries", "lub3"])
 t0 = time.time()
 for op in ops:
     c = Ctx()
     for n in range(1, W + 1):
-        if op == "unary":
+        if prop == "c22":
+            if op == "queries":
+                mod.run_shard({"mode": "queries", "bits": n}, c)
+            elif op == "lub3":
+                if n <= 2:
+                    mod.run_shard({"mode": "triples", "bits": n, "part": 0, "parts": 1}, c)
+            else:
+                mod.run_shard({"mode": "pairs", "bits": n, "ops": [op], "part": 0, "parts": 1}, c)
+        elif op == "unary":
             mod._enum_unary({"bits": n}, c)
         else:
             mod._enum_pairs({"bits": n, "ops": [op], "part": 0, "parts": 1}, c)
@@ -36,6 +44,9 @@ for op in ops:
     for fp, k in sorted(c.fails.items()):
         print(f"{fp}: {k}")
         for case, obs in c.ex[fp][:int(os.environ.get('SHOW', 3))]:
+            if 'sis' in case:
+                print("     ", case['op'], [sg.describe(sg.make(case['bits'], tuple(t) if t != "empty" else t)) for t in case['sis']], '->', obs)
+                continue
             a = sg.describe(sg.make(case['bits'], tuple(case['a'])))
             b = sg.describe(sg.make(case['bits'], tuple(case['b']))) if case.get('b') else None
             print(f"     {case['op']}{'' if case.get('param') is None else case['param']}  a={a} b={b} -> {obs}")
